@@ -493,7 +493,16 @@ Proof.
   constructor; [|constructor]. split; [reflexivity | exact wf_ex_vr].
 Qed.
 
-(* and the theorems are not vacuous on it *)
-Lemma ex_result_roundtrip : exists j, save_result ex_result = Ok j /\
-  exists r', load_result j = Ok r' /\ save_result r' = Ok j.
-Proof. eexists. split; [vm_compute; reflexivity|]. eexists. split; vm_compute; reflexivity. Qed.
+(* and the theorems are not vacuous on it: saving succeeds, and the reloaded result is the canonical
+   form, which differs from the original (the names of a bound are listed in sorted order) *)
+Definition res_is_ok {A} (r : res A) : bool := match r with Ok _ => true | Err _ => false end.
+
+Lemma ex_result_roundtrip :
+  res_is_ok (save_result ex_result) = true /\
+  (r' <- save_load ex_result ;; save_result r') = save_result ex_result /\
+  save_load ex_result = Ok (canon_rs ex_result) /\
+  canon_rs ex_result <> ex_result.
+Proof.
+  split; [vm_compute; reflexivity|]. split; [vm_compute; reflexivity|]. split; [vm_compute; reflexivity|].
+  vm_compute. discriminate.
+Qed.
